@@ -118,7 +118,8 @@ func GenConfig(r *Rng, store string) Config {
 	c.CarV1 = r.Chance(1, 5)
 	if r.Chance(1, 4) {
 		// mostly a limit that bites; sometimes the spellings of "no limit" (values beyond the int64 range)
-		c.MaxIdxCid = Pick(r, []uint64{40, 40, 40, 40, 40, 1 << 63, ^uint64(0)})
+		// (35: between the length of a sha2-256 multihash, 34, and of a CIDv1 carrying it, 36)
+		c.MaxIdxCid = Pick(r, []uint64{40, 40, 40, 40, 35, 1 << 63, ^uint64(0)})
 	}
 	c.ZeroEOF = r.Chance(1, 5)
 	nroots := Pick(r, []int{0, 1, 1, 1, 2, 3})
